@@ -48,7 +48,11 @@ def cells(ck, binary, r=None):
         if not o.get("out") or o.get("status") is None or (hard and o["out"] not in ("reuse", "reuse-close")):
             raise vf.Infra("cell %s could not be driven: %s" % (json.dumps(cc), "; ".join(o.get("issues", []))))
         if o.get("kill") and o["out"] in ("err", "store"):
-            raise vf.Infra("cell %s closes the cached connection with outcome %s: outside the vocabulary of Reuse.tla" % (json.dumps(cc), o["out"]))
+            # the model cannot express this cell: the behaviours are still enforced on the real transports and judged clause by clause on
+            # what the transports did; only if none of them breaks a clause is the run inconclusive (raised at the end of run())
+            ck.outside = "cell %s closes the cached connection with outcome %s: outside the vocabulary of Reuse.tla" % (json.dumps(cc), o["out"])
+            differ.append(ck.outside)
+            continue
         table.append({"c": cc, "o": {"status": o["status"], "out": o["out"], "kill": bool(o.get("kill"))}})
         if o["status"] != e["status"] or o["out"] != e["out"] or o.get("kill") or hard:
             differ.append("%s: code announces %s and does %s%s%s, transcription says %s / %s" % (
@@ -255,7 +259,10 @@ def run(ck):
         _, table, differ = cells(ck, binary, rcells)
         r, g, f2, s = [f.result() for f in fm]
     tf = ""
-    if differ:
+    outside = getattr(ck, "outside", None)
+    if outside:
+        ck.notes.append(outside + "; the model keeps the transcribed table")
+    if differ and not outside:
         # the model is only as good as its table: model-check again with the table the code really implements
         ck.notes.append("decision table extracted from the code differs from the transcription in %d cell(s): %s" % (len(differ), "; ".join(differ[:4])))
         ck.extra["table_cells_differing"] = len(differ)
@@ -324,6 +331,8 @@ def run(ck):
     for lo in range(0, len(chosen), 200):
         schedules(ck, binary, chosen[lo:lo + 200], "seeded behaviour")
     e2e(ck, binary)
+    if outside and not ck.viol:
+        raise vf.Infra(outside)
     if unreproduced and not ck.viol:       # inconclusive only if nothing else was found: the seeded behaviours and the end-to-end runs were still judged
         raise vf.Infra(unreproduced)
     if unreproduced:
